@@ -1,8 +1,35 @@
 //! Stub sha2: SHA-256 is an uninterpreted function of the byte string it is fed.
-pub trait Digest {
+pub trait Digest: Sized {
     fn new() -> Self;
     fn update(&mut self, data: impl AsRef<[u8]>);
     fn finalize(self) -> [u8; 32];
+    // the rest of the commonly used `digest::Digest` surface, in terms of the three above
+    fn new_with_prefix(data: impl AsRef<[u8]>) -> Self {
+        let mut h = Self::new();
+        h.update(data);
+        h
+    }
+    fn chain_update(mut self, data: impl AsRef<[u8]>) -> Self {
+        self.update(data);
+        self
+    }
+    fn digest(data: impl AsRef<[u8]>) -> [u8; 32] {
+        Self::new_with_prefix(data).finalize()
+    }
+    fn finalize_into(self, out: &mut [u8; 32]) {
+        *out = self.finalize();
+    }
+    fn finalize_reset(&mut self) -> [u8; 32]
+    where
+        Self: Clone,
+    {
+        let out = self.clone().finalize();
+        *self = Self::new();
+        out
+    }
+    fn output_size() -> usize {
+        32
+    }
 }
 #[derive(Clone, Default)]
 pub struct Sha256(Vec<u8>);
